@@ -46,7 +46,7 @@ func genC28(o *Out) {
 	fe := o.pinFile("isaac/suffrage_operation.go", "SuffrageExpelFact.hash", "SuffrageExpelFact.IsValid", "SuffrageExpelOperation.IsValid")
 	fs := o.pinFile("base/sign.go", "NewBaseSignFromBytes", "BaseSign.Verify", "BaseNodeSign.Verify", "NewBaseNodeSignFromBytes")
 	_ = o.pinFile("isaac/ballot_sign.go", "baseBallotSignFact.IsValid")
-	_ = o.pinFile("base/base_operation.go", "BaseOperation.IsValid", "BaseOperation.HashBytes")
+	fo := o.pinFile("base/base_operation.go", "BaseOperation.IsValid", "BaseOperation.HashBytes")
 	if fb == nil || fp == nil || fe == nil || fs == nil {
 		return
 	}
@@ -122,6 +122,15 @@ func genC28(o *Out) {
 		src := normSpace(fs.Src(fd.Body))
 		nodeMsg = strings.Contains(src, "si.BaseSign.Verify(networkID, util.ConcatByters(si.node, util.BytesToByter(b)))")
 	}
+	// the operation hash reads the signs in their order
+	signOrder := false
+	if fo != nil {
+		if fd := fo.Func("BaseOperation", "HashBytes"); fd != nil {
+			src := normSpace(fo.Src(fd.Body))
+			signOrder = strings.Contains(src, "bs[0] = op.fact.Hash() for i := range op.signs { bs[i+1] = op.signs[i] } return util.ConcatByters(bs...)")
+		}
+	}
+	o.boolean("operationHashReadsSignsInOrder", signOrder)
 	o.boolean("signCoversNetworkHashTime", msg)
 	o.boolean("nodeSignCoversNode", nodeMsg)
 }
